@@ -1,6 +1,6 @@
 CONFIG = dict(
     coqfiles=["Props/C08Q.v"],
-    n_quick=800, n_thorough=60000, workers_quick=8,
+    n_quick=3000, n_thorough=60000, workers_quick=8,
     rule="sub-check of C08 (quarantine arithmetic under interleaving): the real NewOldCurrentNewLocationBlobMap over the real volatile block list + block-device-backed allocator "
          "(sector size 1, CAS read buffer factory, in-memory device) behind a BlockList wrapper; at every PopFront/PushBack the real findBlockWithSpace makes, the wrapper first completes the scheduled "
          "parked reads (real buffers from the real Get(); the probe's byte was flipped on the medium, so CAS validation fails and the real integrity callback runs), records the visibility of one "
